@@ -98,3 +98,62 @@ pub fn child_dispatch(kind: &str, payload: &J) -> Option<J> {
         _ => None,
     }
 }
+
+// ---------------------------------------------------------------------------
+// coverage-guided fuzzing entry (harness/fuzz): same decoders, same oracles
+// ---------------------------------------------------------------------------
+
+fn fuzz_stage<S: Stage>(rep: &Report, stage: &S, data: &[u8]) {
+    let inp = stage.decode(&mut crate::choice::Src::new(data));
+    let out = match crate::fw::catch(|| stage.check(&inp)) {
+        Ok(o) => o,
+        Err(p) => {
+            eprintln!("VIOLATION (fuzz) property={} stage={} panic while checking: {p}", rep.prop, stage.name());
+            std::process::abort();
+        }
+    };
+    let mut all = out.soft;
+    if let Some(v) = out.fail {
+        all.push(v);
+    }
+    for v in all {
+        if rep.is_known(&v.sig).is_none() {
+            eprintln!("VIOLATION (fuzz) property={} stage={} signature={}\n{}\ninput: {}", rep.prop, stage.name(), v.sig, v.detail, stage.render(&inp));
+            std::process::abort();
+        }
+    }
+}
+
+/// `VERIF_FUZZ_STAGE=C16/table-ops cargo +nightly fuzz run stage` — decode the bytes with the stage's
+/// choice-stream decoder and run its oracle; abort on a violation that is not a known finding.
+pub fn fuzz_one(data: &[u8]) {
+    use std::sync::OnceLock;
+    static WHICH: OnceLock<(String, String, Report)> = OnceLock::new();
+    let (prop, stage, rep) = WHICH.get_or_init(|| {
+        crate::fw::install_quiet_panic_hook();
+        let s = std::env::var("VERIF_FUZZ_STAGE").unwrap_or_else(|_| "C16/table-ops".into());
+        let (p, st) = s.split_once('/').unwrap_or((s.as_str(), ""));
+        (p.to_string(), st.to_string(), Report::new(p, crate::fw::Tier::Thorough, 0))
+    });
+    use crate::pgen::GenCfg;
+    use props::lockstep::{Lockstep, Mode};
+    match (prop.as_str(), stage.as_str()) {
+        ("C01", _) => fuzz_stage(rep, &Lockstep { name: "lockstep", mode: Mode::C01, cfg: GenCfg::default(), pairs_per_prefix: 3, naive_engine: false }, data),
+        ("C02", _) => fuzz_stage(rep, &props::c02::C02, data),
+        ("C03", _) => fuzz_stage(rep, &props::c03::C03 { cfg: props::c03::cfg(), name: "seminaive-vs-naive", with_model: true }, data),
+        ("C04", "invariants-faults") => fuzz_stage(rep, &props::c04::C04 { cfg: props::c04::cfg_faults(), name: "invariants-faults" }, data),
+        ("C04", _) => fuzz_stage(rep, &props::c04::C04 { cfg: props::c04::cfg_plain(), name: "invariants" }, data),
+        ("C07", _) => fuzz_stage(rep, &props::c07::C07 { cfg: props::c07::cfg(), name: "extraction" }, data),
+        ("C10", _) => fuzz_stage(rep, &props::c10::C10 { cfg: props::c10::cfg() }, data),
+        ("C11", _) => fuzz_stage(rep, &props::c11::C11 { cfg: props::c11::cfg(), name: "encodings" }, data),
+        ("C12", _) => fuzz_stage(rep, &props::c12::C12, data),
+        ("C14", _) => fuzz_stage(rep, &Lockstep { name: "container-lockstep", mode: Mode::C14, cfg: props::c14::cfg(), pairs_per_prefix: 2, naive_engine: false }, data),
+        ("C16", "table-churn") => fuzz_stage(rep, &props::c16::TableOps { name: "table-churn", profile: props::c16::Profile::Churn }, data),
+        ("C16", _) => fuzz_stage(rep, &props::c16::TableOps { name: "table-ops", profile: props::c16::Profile::General }, data),
+        ("C17", _) => fuzz_stage(rep, &props::c17::SeqStage { name: "seq-random" }, data),
+        _ => {
+            eprintln!("unknown VERIF_FUZZ_STAGE {prop}/{stage}");
+            std::process::abort();
+        }
+    }
+}
